@@ -51,7 +51,10 @@ Restart *spec* (JSON)::
      "levels": {"0": [start, stop, step] | [it], "1": ...},
      "m0": false | true,   # write " m=0" in the keys
      "checkpoints": [it, ...],
-     "chk_nproc": 0 | n}   # checkpoint files ".file_<k>" per iteration
+     "chk_nproc": 0 | n,   # checkpoint files ".file_<k>" per iteration
+     "decoys": false|true} # other things Carpet/simfactory leave in the data
+                           # directory: 1D/2D HDF5 output "<name>.x.h5",
+                           # "<name>.xy.h5", ASCII output, logs (all stubs)
 """
 import os
 
@@ -160,6 +163,17 @@ def write_restart(simloc, sim, r, spec):
                                 h.create_dataset(
                                     dataset_key(fspec["thorn"], var, it, 0,
                                                 m, rl, c), data=arr)
+    if spec.get("decoys"):
+        names = [f["name"] for f in spec["files"]][:1] or ["alp"]
+        for n in names:
+            for fn in (f"{n}.x.h5", f"{n}.xy.h5", f"{n}.xz.h5", f"{n}.d.h5",
+                       f"{n}.x.asc", f"{n}.xyz.asc", f"{n}.maximum.asc"):
+                with open(path + fn, "w") as f:
+                    f.write("stub")
+        for fn in ("carpet-timing-statistics.0000.txt", "formaline-jar.txt",
+                   sim + ".out", "AllTimers.000000.txt"):
+            with open(path + fn, "w") as f:
+                f.write("stub")
     chk_nproc = int(spec.get("chk_nproc", 0))
     for it in spec.get("checkpoints", []):
         for c in ([None] if not chk_nproc else range(chk_nproc)):
